@@ -318,4 +318,7 @@ class TrioEventLoop(EventLoop):
             # closed and calling wait_readable with a closed fd does not work.
             while not scope.cancel_called:
                 await self._wait_readable(fd)
+                if scope.cancel_called:
+                    # removed after this task was woken: the cancellation is only delivered at the next checkpoint
+                    break
                 callback()
